@@ -3,7 +3,7 @@
 
   `xlate/c07 -mode goir` transcribes, statement by statement, into the IR of Golib.Udp.GoIR:
     util/paramtext/ParamKV.go      indexFold, ToPair, NewParamKVSeperate, ExistsKey, ToString, ToStringStr
-    util/stringutil/StringUtil.go  Truncate, ParseInt32, ParseInt64, ParseStringZeroToEmpty
+    util/stringutil/StringUtil.go  Truncate, ParseInt32, ParseInt64, ParseStringZeroToEmpty, ArrayInt16ToString
   (Golib/Gen/UdpGoFns.lean).  The theorems below run these transcriptions with the IR's semantics and
   prove, **for all inputs**, that they return what the hand-written model returns:
 
@@ -12,6 +12,7 @@
     gen_Truncate    Truncate(s, n)                       = s.take n
     gen_ParseInt32 / gen_ParseInt64                      = Udp.parseIntW 4 / 8
     gen_ZeroToEmpty ParseStringZeroToEmpty(v)            = Udp.zeroToEmpty v
+    gen_ArrayInt16ToString  ArrayInt16ToString(a, c)     = Udp.joinInts c a   (the text UdpActiveStatsPack.Write sends)
 
   An edit of one of these functions changes the transcription, and the proof about it no longer
   applies (e.g. the offset taken in `strings.ToLower(s)` of D52, a `SplitN`, a changed comparison).
@@ -712,6 +713,89 @@ theorem gen_ZeroToEmpty (v : Int) (fld : Store) :
   · have : (v == 0) = false := by simpa using h
     simp [h, this]
 
+/-! ### ArrayInt16ToString -/
+
+def a2sLoopBody : Ss :=
+  match stringutil.ArrayInt16ToString.body with
+  | .cons _ (.cons _ (.cons (.forRangeI _ _ _ b) _)) => b
+  | _ => .nil
+
+theorem set_middle (l1 l2 : List Bytes) (v : Bytes) : (l1 ++ [] :: l2).set l1.length v = l1 ++ v :: l2 := by
+  induction l1 with
+  | nil => rfl
+  | cons x xs ih => simp [List.set, ih]
+
+theorem loop_a2s (fe : FEnv) (fld : Store) (rest : List Int) :
+    ∀ (done : List Int) (loc : Store),
+      loc 2 = .strs (done.map showInt ++ List.replicate rest.length []) →
+      ∃ loc', loopRangeI (rangeFnI fe (.var 3) (.var 4) a2sLoopBody) rest done.length { loc := loc, fld := fld } =
+          .norm { loc := loc', fld := fld } ∧
+        loc' 2 = .strs ((done ++ rest).map showInt) ∧ loc' 1 = loc 1 := by
+  induction rest with
+  | nil => intro done loc h2; exact ⟨loc, by simp [loopRangeI], by simpa using h2, rfl⟩
+  | cons x rest ih =>
+    intro done loc h2
+    have hlen : (done.length : Int) < ((done.map showInt ++ List.replicate (x :: rest).length ([] : Bytes)).length : Int) := by
+      simp; omega
+    have hset : (done.map showInt ++ List.replicate (x :: rest).length ([] : Bytes)).set done.length (showInt x) =
+        (done ++ [x]).map showInt ++ List.replicate rest.length [] := by
+      have := set_middle (done.map showInt) (List.replicate rest.length []) (showInt x)
+      simp only [List.length_map] at this
+      simp only [List.length_cons, List.replicate_succ, this]
+      simp
+    have hstep : rangeFnI fe (.var 3) (.var 4) a2sLoopBody done.length x { loc := loc, fld := fld } =
+        .norm { loc := upd (upd (upd loc 3 (.int done.length)) 4 (.int x)) 2
+                  (.strs ((done ++ [x]).map showInt ++ List.replicate rest.length [])),
+                fld := fld } := by
+      simp only [rangeFnI, a2sLoopBody, stringutil.ArrayInt16ToString, execSs_cons, execSs_nil, execS_idxSet, evalE, evalEs,
+        biApply, setL, getL, upd_apply]
+      simp only [show ((2 : Nat) = 4) = False by decide, show ((2 : Nat) = 3) = False by decide, if_false, h2,
+        show ((3 : Nat) = 4) = False by decide, if_true]
+      have hc : (0 : Int) ≤ (done.length : Int) ∧ (done.length : Int) < ((done.map showInt ++ List.replicate (x :: rest).length ([] : Bytes)).length : Int) :=
+        ⟨by omega, hlen⟩
+      simp only [hc, and_self, if_true, Int.toNat_natCast, hset]
+    obtain ⟨loc', hl, h2', h1'⟩ := ih (done ++ [x])
+      (upd (upd (upd loc 3 (.int done.length)) 4 (.int x)) 2
+        (.strs ((done ++ [x]).map showInt ++ List.replicate rest.length []))) (by simp [upd_apply])
+    refine ⟨loc', ?_, ?_, ?_⟩
+    · simp only [loopRangeI, hstep]
+      simpa using hl
+    · simpa using h2'
+    · rw [h1']; simp [upd_apply]
+
+theorem gen_ArrayInt16ToString (xs : List Int) (c : Nat) (fld : Store) :
+    mkFEnv stringutil.prog 4 [.ints xs, .str [c]] fld = some (.str (joinInts c xs)) := by
+  have hj : joinInts c xs = joinOn c (xs.map showInt) := by
+    unfold joinInts
+    induction xs.map showInt with
+    | nil => rfl
+    | cons a r ih => cases r with
+      | nil => rfl
+      | cons b r' => simp only [joinBytes, joinOn] at ih ⊢; rw [ih]
+  cases xs with
+  | nil =>
+    simp [stringutil.prog, mkFEnv, runFn, stringutil.ArrayInt16ToString, execSs_cons, execSs_nil, execS_if, execS_ret,
+      evalE, evalEs, biApply, binApply, vEq, initLoc, joinInts, joinBytes]
+  | cons x xs' =>
+    obtain ⟨loc', hl, h2, h1⟩ := loop_a2s (mkFEnv [stringutil.ParseStringZeroToEmpty, stringutil.ParseInt64, stringutil.ParseInt32, stringutil.Truncate])
+      fld (x :: xs') []
+      (upd (fun j => if j = 0 then V.ints (x :: xs') else if j - 1 = 0 then V.str [c] else V.str []) 2
+        (.strs (List.replicate (x :: xs').length [])))
+      (by simp [upd_apply])
+    simp only [a2sLoopBody, stringutil.ArrayInt16ToString] at hl
+    simp only [List.length_nil] at hl
+    have hz : (((xs'.length : Int) + 1) == 0) = false := by
+      have : ¬ ((xs'.length : Int) + 1 = 0) := by omega
+      simpa using this
+    have hnn : (0 : Int) ≤ (xs'.length : Int) + 1 := by omega
+    have htn : ((xs'.length : Int) + 1).toNat = xs'.length + 1 := by omega
+    simp only [List.length_cons] at hl
+    show mkFEnv (stringutil.ArrayInt16ToString :: [stringutil.ParseStringZeroToEmpty, stringutil.ParseInt64, stringutil.ParseInt32, stringutil.Truncate])
+      [stringutil.ParseStringZeroToEmpty, stringutil.ParseInt64, stringutil.ParseInt32, stringutil.Truncate].length _ _ = _
+    rw [mkFEnv_head]
+    simp [runFn, stringutil.ArrayInt16ToString, execSs_cons, execSs_nil, execS_if, execS_ret,
+      execS_assign, execS_forRangeI, evalE, evalEs, biApply, binApply, vEq, initLoc, setL, upd_apply, hz, hnn, htn, hl, h2, h1, hj]
+
 /-! ### the two passes of `Process()` through the transcribed code -/
 
 /-- `maskDbc` (Golib.Udp.ParamKV) is the transcribed ParamKV code run twice, as the Process()
@@ -731,6 +815,8 @@ theorem gen_maskDbc (s : Bytes) (hs : s ≠ []) :
 example : goMaskPass 59 kwPassword kwHash [117, 61, 49, 59, 112, 97, 115, 115, 119, 111, 114, 100, 61, 120] =
     some (.str [117, 61, 49, 59, 112, 97, 115, 115, 119, 111, 114, 100, 61, 35]) := by decide +kernel
 example : mkFEnv stringutil.prog 1 [.str [45, 53]] (fun _ => .nil) = some (.int (-5)) := by decide +kernel
+example : mkFEnv stringutil.prog 4 [.ints [1, -2, 30], .str [44]] (fun _ => .nil) =
+    some (.str [49, 44, 45, 50, 44, 51, 48]) := by decide +kernel
 example : mkFEnv paramKV.prog 0 [.str [97, 98, 61, 99], .str [61]] (fun _ => .nil) = some (.int 2) := by decide +kernel
 
 end C07Go
